@@ -224,6 +224,20 @@ Theorem merge_symmetric_objects_verdict : forall B, has_conflicted (map swap_dec
 Proof. exact has_conflicted_swap. Qed.
 Print Assumptions merge_symmetric_objects_verdict.
 
+(* ... and the merged document: with the sides exchanged the merge returns the exchanged decisions, with the same verdict,
+   and applying them to base builds the SAME merged document -- provided every agreement decision (action either) records
+   JSON-identical diffs on its two sides (side_neutral).  The excluded case is precisely the recorded finding
+   symmetry-merged-differs-by-json-type-only below. *)
+Theorem merge_symmetric_objects_merged_partial : forall O cfg St H base dl dr D,
+  SortKey.st_table St = [] -> objmeet base dl dr ->
+  decide O cfg St H base dl dr = Ok D ->
+  exists D', decide O cfg St H base dr dl = Ok D'
+             /\ D' = map swap_dec D
+             /\ has_conflicted D' = has_conflicted D
+             /\ (Forall side_neutral D -> apply_decisions base D' = apply_decisions base D).
+Proof. exact (fun O cfg St H => decide_apply_objmeet_swap O cfg St H chunks_guard entry_eq_strict conflict_assert_strict). Qed.
+Print Assumptions merge_symmetric_objects_merged_partial.
+
 (* one layer, with the recursive call abstract: for a key of an object that BOTH sides changed (steps (4)-(8) of
    _merge_dicts), given that the sub-merge the key makes is symmetric *)
 Theorem merge_symmetric_per_key_partial : forall St M rec base p B key ld rd,
